@@ -13,6 +13,8 @@ def run(ctx):
         if i % 7 == 0:
             p["divergence_metric"], p["ev_threshold"] = "intersection", 0.99     # several components, histogram metric
         p["neighbour"] = i % 7 == 0 or i % 5 == 1
+        if i % 3 == 1:
+            p["bads"] = sorted(rng.sample(range(3, 6 * p["window_size"]), rng.randint(1, 4)))     # refused calls at arbitrary stream positions
         if i % 3 != 0:
             C.choose(rng, p, ("array2d", "array1d", "list2d", "list1d", "frame", "series", "reused1d", "reused2d", "tuple"))
         W = p["window_size"]
